@@ -463,7 +463,7 @@ fn e2e_path(tag: &str) -> String {
 }
 
 /// Case: `bench=<tag> via=<cli|env|attr|attr+cli-n|builder|builder+env-n|builder+env-s> mode=<b|t> n=<n|-> s=<s> threads=<a,b,..>
-/// [mx=0] [bn=<builder count overridden by the environment>] [bs=..] [start=<main|api-test|api-bench|args-..>]` (the
+/// [mx=0] [bn=<builder count overridden by the environment>] [bs=..] [start=<main|api-test|api-bench|args-..>] [arg=<case below the benchmark>] [nomark=1]` (the
 /// effective values; `via` says where they are given).  Output: per thread
 /// count `t=T samples=.. iters=.. calls=<per thread index>` joined by `;`.
 fn run_e2e(line: &str) -> String {
@@ -488,8 +488,19 @@ fn run_e2e(line: &str) -> String {
     let start = if get("start") == "-" { "main" } else { get("start") };
     cmd.env("HX_START", start);
     let api_only = start == "api-test" || start == "api-bench";
+    // `arg=<c1>/<c2>`: the argument / generic case below the benchmark (row names and CALL tag)
+    let arg = if get("arg") == "-" { None } else { Some(get("arg")) };
+    let full_tag = match arg {
+        Some(a) => format!("{}/{}", get("bench"), a),
+        None => get("bench").to_string(),
+    };
     if api_only {
-        cmd.env("HX_ONLY", e2e_path(get("bench")));
+        let mut path = e2e_path(get("bench"));
+        if let Some(a) = arg {
+            path.push_str("::");
+            path.push_str(&a.replace('/', "::"));
+        }
+        cmd.env("HX_ONLY", path);
     } else {
         let flag = match start {
             "args-test-then-api-bench" => "--test",
@@ -498,7 +509,7 @@ fn run_e2e(line: &str) -> String {
             _ => "--bench",
         };
         // selected by its function name, whatever the groups above it are called
-        cmd.arg(flag).arg(format!("::{}$", get("bench")));
+        cmd.arg(flag).arg(format!("::{}(::|$)", get("bench")));
     }
     match get("via") {
         "cli" => {
@@ -569,15 +580,32 @@ fn run_e2e(line: &str) -> String {
     let threads: Vec<usize> = get("threads").split(',').map(|t| t.parse().expect("threads")).collect();
     // table rows: `<tree> name  fastest │ slowest │ median │ mean │ samples │ iters`
     let mut figures: BTreeMap<usize, (String, String)> = BTreeMap::new();
+    let comps: Vec<&str> = arg.map_or(Vec::new(), |a| a.split('/').collect());
+    let mut in_bench = false;
+    let mut matched = 0usize; // components of `arg` matched below the benchmark's row
     let mut in_target = false;
     for l in stdout.lines() {
-        let cells: Vec<&str> = l.split('│').map(|c| c.trim()).collect();
-        let name = cells[0].trim_start_matches(|c: char| "│├╰─ ".contains(c)).split(' ').next().unwrap_or("");
+        // the tree part in front of the name uses the same bar as the column separators: strip it first
+        let body = l.trim_start_matches(|c: char| "│├╰─ ".contains(c));
+        let cells: Vec<&str> = body.split('│').map(|c| c.trim()).collect();
+        // the name's cell also holds the `fastest` column
+        let name = cells[0].split(' ').next().unwrap_or("");
         let is_t_row = name.starts_with("t=");
         if name == get("bench") {
-            in_target = true;
+            in_bench = true;
+            matched = 0;
+            in_target = comps.is_empty();
         } else if !is_t_row {
-            in_target = false;
+            if in_bench && matched < comps.len() && name == comps[matched] {
+                matched += 1;
+                in_target = matched == comps.len();
+            } else {
+                // a sibling case or another benchmark
+                if in_target {
+                    in_bench = false;
+                }
+                in_target = false;
+            }
         }
         if !in_target || cells.len() < 6 || cells[4].is_empty() || !cells[4].chars().all(|c| c.is_ascii_digit()) {
             continue;
@@ -594,9 +622,13 @@ fn run_e2e(line: &str) -> String {
     }
     // stderr: `RUN tag` once per thread count (ascending), `CALL tag <thread index>` per call
     let mut runs: Vec<BTreeMap<usize, u64>> = Vec::new();
+    // no `Bencher` parameter, no RUN marker: all calls belong to the single thread count
+    if get("nomark") == "1" {
+        runs.push(BTreeMap::new());
+    }
     for l in stderr.lines() {
         let tok: Vec<&str> = l.split(' ').collect();
-        if tok.len() >= 2 && tok[1] != get("bench") {
+        if tok.len() >= 2 && tok[1] != full_tag {
             continue;
         }
         if tok[0] == "RUN" {
